@@ -6,7 +6,7 @@
 use crate::gen::{self, GraphOpts, XiMode};
 use crate::oracle::*;
 use crate::run::{Outcome, Settings};
-use crate::scalar::{tracked_census, tracked_reset, Tracked, DD};
+use crate::scalar::{tracked_census, tracked_pi_calls, tracked_reset, tracked_set_pi_skew, Tracked, DD};
 use crate::setup::Setup;
 use crate::util::*;
 use num::{Signed, Zero};
@@ -106,6 +106,37 @@ fn census_case(item: u64, rng: &mut Rng, acc: &mut Acc, range: &(String, u32, u3
         }
         if !fails.is_empty() {
             acc.violate(item, "narrowing_outside_gamma_draw", "precision:narrowing_site", json!({"config": su.describe(), "x": fjv(&x), "settings": format!("{:?}", st), "failures": fails}));
+        }
+        // ---- monitor 3: the user's constants are used. The scalar's PI() is skewed by 2^-20; the
+        // Gaussian vectors must follow the skewed value (an f64 literal for 2*pi would not).
+        if k % 2 == 1 {
+            let skew = 2f64.powi(-20);
+            tracked_reset(false);
+            tracked_set_pi_skew(skew);
+            let run2 = su.sampler.sample::<Tracked>(&xt, &masses, &shifts, &Settings::meta());
+            let pi_calls = tracked_pi_calls();
+            tracked_set_pi_skew(0.0);
+            if let Outcome::Ok(o2) = &run2.outcome {
+                let m2 = o2.meta.as_ref().unwrap();
+                let base = 2 * ne - 1;
+                let d = su.g.d;
+                let mut pf: Vec<String> = vec![];
+                for c in 0..d * su.loops {
+                    let (a, b) = (x[base + 2 * (c / 2)], x[base + 2 * (c / 2) + 1]);
+                    let r = (-2.0 * a.ln()).sqrt();
+                    let th = 2.0 * std::f64::consts::PI * (1.0 + skew) * b;
+                    let want = if c % 2 == 0 { r * th.cos() } else { r * th.sin() };
+                    let got = m2.q[c / d][c % d].v;
+                    if !((got - want).abs() <= 1e-10 * r.max(1.0)) {
+                        pf.push(format!("Gaussian component {}: {:e}, with the user's PI() it must be {:e} (an f64 pi gives {:e})", c, got, want, if c % 2 == 0 { r * (2.0 * std::f64::consts::PI * b).cos() } else { r * (2.0 * std::f64::consts::PI * b).sin() }));
+                    }
+                }
+                acc.count("user_constant_samples_checked");
+                acc.add("user_PI_calls_observed", pi_calls);
+                if !pf.is_empty() {
+                    acc.violate(item, "user_constant_replaced_by_f64", "precision:user_constant", json!({"config": su.describe(), "x": fjv(&x), "failures": pf}));
+                }
+            }
         }
     }
 }
